@@ -174,7 +174,7 @@ func parseFlowDesc(flowDesc, ueIP string) (*ipFilterRule, error) {
 				return nil, err
 			}
 
-			if i < len(fields)-1 {
+			if i < len(fields)-1 && fields[i+1] != "from" {
 				i++
 
 				err = ipf.dst.parsePort(fields[i])
